@@ -263,10 +263,46 @@ def run(tier, seed):
         for perm in itertools.permutations(range(3)):
             rec.case("swizzle3", (a, b, perm))
             check_swizzle(rec, "swizzle3", 3, 2, spec, perm)
+    # at scale: wider tensors (8-20 coordinates per rank, depth 2-3) with the same oracles
+    for _ in range(40 if tier == "quick" else 500):
+        if rec.out_of_time():
+            break
+        depth = rnd.choice([2, 2, 3])
+        n = rnd.choice([8, 12, 20]) if depth == 2 else rnd.choice([5, 8])
+        spec = random_spec(rnd, depth, n, p_present=rnd.choice([0.3, 0.6]))
+        which = rnd.choice(["swizzle", "swap", "flatten", "split-flatten", "update", "merge"])
+        if which == "swizzle":
+            perm = list(range(depth))
+            rnd.shuffle(perm)
+            rec.case("scale", ("swizzle", spec_key(spec), tuple(perm)))
+            check_swizzle(rec, "scale", depth, n, spec, perm)
+        elif which == "swap":
+            d = rnd.randrange(depth - 1)
+            rec.case("scale", ("swap", spec_key(spec), d))
+            check_swap(rec, "scale", depth, n, spec, d)
+        elif which == "flatten":
+            d = rnd.randrange(depth - 1)
+            levels = rnd.randint(1, depth - 1 - d)
+            style = rnd.choice(["tuple", "pair", "linear"]) if levels == 1 else rnd.choice(["tuple", "pair"])
+            rec.case("scale", ("flatten", spec_key(spec), d, levels, style))
+            check_flatten(rec, "scale", depth, n, spec, d, levels, style)
+        elif which == "split-flatten":
+            d = rnd.randrange(depth)
+            rec.case("scale", ("split-flatten", spec_key(spec), d))
+            check_split_flatten(rec, "scale", depth, n, spec, rnd.choice([1, 3, 7]), d)
+        elif which == "merge" and depth == 2:
+            style = rnd.choice(["absolute", "relative"])
+            rec.case("scale", ("merge", spec_key(spec), style))
+            check_merge(rec, "scale", 2, n, spec, style)
+        else:
+            d = rnd.randrange(depth)
+            rec.case("scale", ("update", spec_key(spec), d))
+            check_update_below(rec, "scale", depth, n, spec, d)
     return rec.result("every depth-2 tree over 2 coordinates (explicit defaults, empty sub-fibers, empty tensor) x {all permutations, swap, 5 flatten styles with "
                       "unflatten, absolute/relative merge, split+flatten(absolute), coordinate/payload updates at every depth}; seeded random depth 3-4 "
                       "tensors with random permutations / (depth, levels, style); all two-point 3-rank tensors x all 6 permutations; content maps compared "
-                      "with the image under the stated coordinate map, results checked for WF and rank bookkeeping, inverses applied")
+                      "with the image under the stated coordinate map, results checked for WF and rank bookkeeping, inverses applied; plus seeded random "
+                      "wider tensors at scale (8-20 coordinates per rank)")
 
 
 def replay(case):
